@@ -29,13 +29,15 @@ def gen_case(rng, tier):
             cfg['preZones'].append((f'PZ{i}', s, e))
     stmts = P.gen_program(rng, cfg, n_stmts=rng.randint(5, 16), allow_bad=0.03,
                           weights={'memzone': 4, 'org': 4, 'createZone': 2, 'fill': 3, 'data': 3, 'instr': 3, 'label': 1.5,
-                                   'zerountil': 1, 'align': 0.7, 'const': 0.7, 'mute': 0.3})
+                                   'zerountil': 1, 'align': 0.7, 'const': 0.7, 'mute': 0.3, 'macro': 1})
     # sometimes a negative zone-relative origin / explicit "GLOBAL"
     if rng.random() < 0.25:
         zn = rng.choice([z[0] for z in cfg['preZones']] + ['GLOBAL'])
         off = rng.choice([-1, -4, 0, 2])
         e = ('bin', '-', ('num', 4), ('num', 4 - off)) if off < 0 else ('num', off)
         stmts.insert(rng.randint(0, len(stmts)), {'k': 'org', 'e': e, 'zone': zn})
+    if rng.random() < 0.25:
+        stmts = P.add_dead_blocks(rng, cfg, stmts, n=rng.randint(1, 2))
     gs = min([z[1] for z in cfg['preZones'] if z[0] == 'GLOBAL'] or [0])
     return {'cfg': cfg, 'files': [stmts], 'start': gs, 'end': None, 'fill': 0, 'seed': rng.randrange(1 << 30)}
 
@@ -51,6 +53,8 @@ def judge(case, ir, mr):
         return bad
     st = case['files'][0]
     zones_used = {s.get('zone') or 'GLOBAL' for s in st if s['k'] == 'org'} | {s['z'] for s in st if s['k'] == 'memzone'}
+    if any(s['k'] == 'cond' for s in st):
+        tags.append('conditional-blocks')
     zone_reason = mr.get('err') in ('zoneBounds', 'zoneDecl')
     if any(s['k'] == 'createZone' for s in st):
         tags.append('create_memzone')
